@@ -460,7 +460,8 @@ _run_clauses = run
 
 def run(prog, rep):
     _run_clauses(prog, rep)
-    from plint.wiring import check_zero_init
+    from plint.wiring import check_zero_init, check_error_contract
+    check_error_contract(rep, "C06.2", prog, ['psemaphore-posix.c', 'psemaphore-sysv.c'], 10)
     check_zero_init(rep, "C06.2", prog, ['psemaphore-posix.c', 'psemaphore-sysv.c'], 1)
 
 # generic robustness battery: renaming every local/parameter in these files must not change any verdict
